@@ -90,6 +90,7 @@ func R[M ~map[K]V, K comparable, V any](m M, site string) M {
 		id := mapObj(m)
 		vsched.NameObj(id, "map@"+site)
 		vsched.RecordAccess(id, false, site)
+		vsched.Step(vsched.Op1("map.read", id, vsched.KMemRead))
 	}
 	return m
 }
@@ -99,6 +100,7 @@ func W[M ~map[K]V, K comparable, V any](m M, site string) M {
 	if vsched.Active() && m != nil {
 		id := mapObj(m)
 		vsched.RecordAccess(id, true, site)
+		vsched.Step(vsched.Op1("map.write", id, vsched.KMemWrite))
 	}
 	return m
 }
@@ -109,6 +111,7 @@ func FR[T any](p *T, name, site string) *T {
 		id := vsched.AddrObj(unsafe.Pointer(p))
 		vsched.NameObj(id, name)
 		vsched.RecordAccess(id, false, site)
+		vsched.Step(vsched.Op1("field.read", id, vsched.KMemRead))
 	}
 	return p
 }
@@ -119,6 +122,7 @@ func FW[T any](p *T, name, site string) *T {
 		id := vsched.AddrObj(unsafe.Pointer(p))
 		vsched.NameObj(id, name)
 		vsched.RecordAccess(id, true, site)
+		vsched.Step(vsched.Op1("field.write", id, vsched.KMemWrite))
 	}
 	return p
 }
